@@ -28,26 +28,16 @@ Theorem C33_invariant : forall hooks n fuel s s', R s -> flush hooks n fuel s = 
 Proof. exact flush_R. Qed.
 Print Assumptions C33_invariant.
 
-(* obj.flush(): the same, on the exact complement of the recorded defect: after the object's own before hook no object it
-   references is still unsaved ('created') *)
-Theorem C33_obj_flush_once_except_known : forall hooks fuel o s s' k,
-  R s -> pend s o = Some k ->
-  no_unsaved_principal (run_hook hooks true k o (add_log (EB k o) s)) o ->
-  obj_flush hooks fuel o s = Some s' ->
-  R s'.
-Proof. exact obj_flush_once. Qed.
-Print Assumptions C33_obj_flush_once_except_known.
-
-(* obj.flush() as repaired by proposed_fixes/C33-obj-flush-principal-before-hooks.diff (Entity.flush passes call_before_hooks=True;
-   _save_principal_objects_ calls the before hook of every still-unsaved principal right before saving it): UNCONDITIONAL --
-   for all hooks, every chain of principals (a cyclic chain is an error in model and code), every session state.
-   (The check compares the real Entity.flush with obj_flush_h instead of obj_flush as soon as /repo contains the repair.) *)
-Theorem C33_obj_flush_once_repaired : forall hooks fuel o s s',
+(* obj.flush() (Entity.flush passes call_before_hooks=True; _save_principal_objects_ calls the before hook of every still-unsaved
+   principal right before saving it -- /repo b6b47ea): the same property, UNCONDITIONAL -- for all hooks, every chain of principals
+   (a cyclic chain is an error in model and code), every session state.  obj_flush_h is the model of this code; the model of the
+   code before b6b47ea (obj_flush, which skipped the principals' before hooks) is kept only so that a revert is recognised. *)
+Theorem C33_obj_flush_once : forall hooks fuel o s s',
   R s -> obj_flush_h hooks fuel o s = Some s' -> R s'.
 Proof. exact obj_flush_h_once. Qed.
-Print Assumptions C33_obj_flush_once_repaired.
+Print Assumptions C33_obj_flush_once.
 
-Example C33_repaired_nonvacuous :
+Example C33_obj_flush_nonvacuous :
   result_log (match obj_flush_h no_hooks 10 1 st_principal with Some s => Ok s | None => ErrFuel end)
   = [EB KIns 1; EB KIns 0; ES KIns 0; ES KIns 1; EA KIns 0; EA KIns 1].
 Proof. vm_compute. reflexivity. Qed.
